@@ -95,6 +95,24 @@ func freshErr(c *LibCtx, name string) *Val {
 	return freshVal(types.Universe.Lookup("error").Type(), name, true)
 }
 
+// errRootTerm: the registered error at the root of a wrapped error value (uninterpreted on (tag, payload)).
+func errRootTerm(e *Val) *Term {
+	return UF("errRoot", []string{SInt, SInt}, SInt, e.Tag, e.T)
+}
+
+// errRootOf: the root of any error value: a registered *errors.Error is its own root (its payload is the pointer).
+func errRootOf(e *Val) *Term {
+	if errPtrTag != 0 {
+		return Ite(Eq(e.Tag, Num(int64(errPtrTag))), e.T, errRootTerm(e))
+	}
+	return errRootTerm(e)
+}
+
+// errPtrTag: the interface tag of *cosmossdk.io/errors.Error (set when the type is first met); errGlobals: the constants that
+// stand for registered errors (pairwise distinct objects).
+var errPtrTag int
+var errGlobals = map[string]bool{}
+
 func nilErr() *Val {
 	return &Val{K: VIface, Typ: types.Universe.Lookup("error").Type(), Tag: Num(0), T: Num(0)}
 }
@@ -352,11 +370,28 @@ func init() {
 	reg("errors.New", errNew)
 	reg("google.golang.org/grpc/status.Error", errNew)
 	reg("google.golang.org/grpc/status.Errorf", errNew)
-	reg("(*cosmossdk.io/errors.Error).Wrap", func(c *LibCtx, a []*Val) *Val { return nonNilErr(c) })
-	reg("(*cosmossdk.io/errors.Error).Wrapf", func(c *LibCtx, a []*Val) *Val { return nonNilErr(c) })
+	// A wrapped error keeps the registered error it was built from as its root (errors.Is semantics): contracts can say
+	// which check rejected a request (errIs(err, "types/errors.ErrInsufficientFunds")).
+	reg("(*cosmossdk.io/errors.Error).Wrap", func(c *LibCtx, a []*Val) *Val {
+		e := nonNilErr(c)
+		if a[0].K == VPtr && a[0].T != nil {
+			c.st.Assume(Eq(errRootTerm(e), a[0].T))
+		}
+		return e
+	})
+	reg("(*cosmossdk.io/errors.Error).Wrapf", func(c *LibCtx, a []*Val) *Val {
+		e := nonNilErr(c)
+		if a[0].K == VPtr && a[0].T != nil {
+			c.st.Assume(Eq(errRootTerm(e), a[0].T))
+		}
+		return e
+	})
 	wrap := func(c *LibCtx, a []*Val) *Val {
 		e := freshErr(c, "wrapped")
 		c.st.Assume(Eq(Eq(e.Tag, Num(0)), Eq(a[0].Tag, Num(0))))
+		if a[0].K == VIface {
+			c.st.Assume(Implies(Neq(a[0].Tag, Num(0)), Eq(errRootTerm(e), errRootOf(a[0]))))
+		}
 		return e
 	}
 	for _, p := range []string{"globfn:" + pErrs, "cosmossdk.io/errors.", "github.com/pkg/errors."} {
